@@ -98,6 +98,27 @@ func turnNetworkTypesForURL(url stun.URI, networkTypes []NetworkType) []NetworkT
 	return res
 }
 
+func networkTypeEnabled(networkTypes []NetworkType, networkType NetworkType) bool {
+	for _, enabled := range networkTypes {
+		if enabled == networkType {
+			return true
+		}
+	}
+
+	return false
+}
+
+// hostNetworkTypeEnabled reports whether a host candidate using the given transport on ip
+// has a network type that is part of the configured network types.
+func hostNetworkTypeEnabled(networkTypes []NetworkType, network string, ip netip.Addr) bool {
+	networkType, err := determineNetworkType(network, ip)
+	if err != nil {
+		return false
+	}
+
+	return networkTypeEnabled(networkTypes, networkType)
+}
+
 // Close a net.Conn and log if we have a failure.
 func closeConnAndLog(c io.Closer, log logging.LeveledLogger, msg string, args ...any) {
 	if c == nil || (reflect.ValueOf(c).Kind() == reflect.Ptr && reflect.ValueOf(c).IsNil()) {
@@ -398,6 +419,16 @@ func (a *Agent) gatherCandidatesLocal(ctx context.Context, networkTypes []Networ
 			}
 
 			for network := range networks {
+				// localInterfaces selects addresses by IP family only: skip the transports whose
+				// network type (transport + family of this address) is not enabled.
+				candidateIP := mappedIP
+				if a.mDNSMode == MulticastDNSModeQueryAndGather {
+					candidateIP = addr
+				}
+				if !hostNetworkTypeEnabled(networkTypes, network, candidateIP) {
+					continue
+				}
+
 				type connAndPort struct {
 					conn net.PacketConn
 					port int
